@@ -9,11 +9,16 @@ def tokStr : PTok → String
   | .lit c => toHex c.toNat
   | .field => "F"
 
+def kindOf (f : String) : Kind :=
+  if f == "1" || f == "r" then .regular else if f == "d" then .directory else if f == "p" then .fifo
+  else if f == "s" then .socket else if f == "c" then .charDevice else if f == "b" then .blockDevice
+  else if f == "m" then .missing else .directory
+
 def parseEntries : List String → Option (List Entry)
   | [] => some []
   | n :: f :: m :: rest =>
     match decTok n, m.toInt?, parseEntries rest with
-    | some n, some m, some es => some ({ name := n, isFile := f == "1", mtime := m } :: es)
+    | some n, some m, some es => some ({ name := n, kind := kindOf f, mtime := m } :: es)
     | _, _, _ => none
   | _ => none
 
